@@ -201,3 +201,161 @@ func extractC04Tok(c *ctxT) {
 	c.write("C04Tok.lean", sb.String())
 	c.facts["C04Tok"] = facts
 }
+
+// ---------------------------------------------------------------------------------------------------------------------
+// C04 round 5: which IBC alias (voucher) of a base coin is chosen for an IBC target.  Both look-ups (crosschain
+// BaseDenomToBridgeDenom, erc20 ToTargetDenom) walk the aliases in metadata order and SKIP a voucher when a condition on
+// its denom-trace path and on the target's "port/channel" holds; the first voucher not skipped is the route.  The
+// condition is translated into a Lean Bool over `path hop : List Char`; the format string and arguments of `hop` are
+// emitted too.  Model/C04Tok.lean `chooseAlias` interprets it, Props/C04.lean proves "not skipped <=> same last hop".
+func init() { register(extractC04Hop) }
+
+type c04HopCtx struct {
+	c   *ctxT
+	hop  string   // source text of the expression `hop` stands for
+	hopE ast.Expr // … and the expression itself
+	ok   bool
+}
+
+func (x *c04HopCtx) term(e ast.Expr) string {
+	src := c04Space.ReplaceAllString(x.c.src(e), "")
+	switch {
+	case src == "path" || src == "denomTrace.GetPath()":
+		return "path"
+	case src == "hop" || (strings.HasPrefix(src, "fmt.Sprintf(") && src == c04Space.ReplaceAllString(x.hop, "")):
+		return "hop"
+	}
+	switch v := e.(type) {
+	case *ast.ParenExpr:
+		return x.term(v.X)
+	case *ast.BasicLit:
+		if v.Kind == token.STRING {
+			return "(" + leanStr(strings.Trim(v.Value, "\"`")) + ").toList"
+		}
+	case *ast.BinaryExpr:
+		if v.Op == token.ADD {
+			return "(" + x.term(v.X) + " ++ " + x.term(v.Y) + ")"
+		}
+	case *ast.CallExpr:
+		if strings.HasPrefix(src, "fmt.Sprintf(") { // an inline hop (the shape before fix 94a3933)
+			if x.hop == "" {
+				x.hop = x.c.src(e)
+				x.hopE = e
+			}
+			if c04Space.ReplaceAllString(x.hop, "") == src {
+				return "hop"
+			}
+		}
+	}
+	x.ok = false
+	return "([] : List Char) /- untranslated: " + strings.ReplaceAll(x.c.src(e), "-/", "- /") + " -/"
+}
+
+func (x *c04HopCtx) cond(e ast.Expr) string {
+	switch v := e.(type) {
+	case *ast.ParenExpr:
+		return "(" + x.cond(v.X) + ")"
+	case *ast.UnaryExpr:
+		if v.Op == token.NOT {
+			return "(!" + x.cond(v.X) + ")"
+		}
+	case *ast.BinaryExpr:
+		switch v.Op {
+		case token.LAND:
+			return "(" + x.cond(v.X) + " && " + x.cond(v.Y) + ")"
+		case token.LOR:
+			return "(" + x.cond(v.X) + " || " + x.cond(v.Y) + ")"
+		case token.NEQ:
+			return "(" + x.term(v.X) + " != " + x.term(v.Y) + ")"
+		case token.EQL:
+			return "(" + x.term(v.X) + " == " + x.term(v.Y) + ")"
+		}
+	case *ast.CallExpr:
+		if x.c.src(v.Fun) == "strings.HasPrefix" && len(v.Args) == 2 {
+			return "(List.isPrefixOf " + x.term(v.Args[1]) + " " + x.term(v.Args[0]) + ")"
+		}
+	}
+	x.ok = false
+	return "true /- untranslated: " + strings.ReplaceAll(x.c.src(e), "-/", "- /") + " -/"
+}
+
+// skipCond: inside fd, the `if … { continue }` that follows the GetDenomTrace look-up and mentions the trace path
+func (x *c04HopCtx) skipCond(fd *ast.FuncDecl) (string, string, []string) {
+	expr, format := "", ""
+	var args []string
+	if fd == nil || fd.Body == nil {
+		x.ok = false
+		return "true", "", nil
+	}
+	ast.Inspect(fd.Body, func(n ast.Node) bool {
+		switch s := n.(type) {
+		case *ast.AssignStmt:
+			if len(s.Lhs) == 1 && x.c.src(s.Lhs[0]) == "hop" && len(s.Rhs) == 1 {
+				x.hop = x.c.src(s.Rhs[0])
+				x.hopE = s.Rhs[0]
+			}
+		case *ast.IfStmt:
+			if expr != "" || len(s.Body.List) != 1 {
+				return true
+			}
+			if br, ok := s.Body.List[0].(*ast.BranchStmt); !ok || br.Tok != token.CONTINUE {
+				return true
+			}
+			all := x.c.src(s.Cond)
+			if s.Init != nil {
+				all += x.c.src(s.Init)
+			}
+			if !strings.Contains(all, "GetPath()") {
+				return true
+			}
+			expr = x.cond(s.Cond)
+		}
+		return true
+	})
+	if expr == "" {
+		x.ok = false
+		return "true", "", nil
+	}
+	if call, ok := x.hopE.(*ast.CallExpr); ok && len(call.Args) >= 1 {
+		if bl, ok := call.Args[0].(*ast.BasicLit); ok {
+			format = strings.Trim(bl.Value, "\"`")
+		}
+		for _, a := range call.Args[1:] {
+			args = append(args, leanStr(x.c.src(a)))
+		}
+	} else {
+		x.ok = false
+	}
+	return expr, format, args
+}
+
+func extractC04Hop(c *ctxT) {
+	var sb strings.Builder
+	sb.WriteString("namespace FxVerif.Gen.C04Hop\n\n")
+	facts := map[string]any{}
+	for _, s := range []struct{ rel, fn, lean string }{
+		{"x/crosschain/keeper", "BaseDenomToBridgeDenom", "crosschain"},
+		{"x/erc20/keeper", "ToTargetDenom", "erc20"},
+	} {
+		x := &c04HopCtx{c: c, ok: true}
+		fd := c.findFunc(s.rel, "Keeper", s.fn)
+		expr, format, args := x.skipCond(fd)
+		where := "(function not found)"
+		if fd != nil {
+			where = c.pos(fd)
+		}
+		sb.WriteString("/-- `" + s.fn + "` " + where + ": a voucher with denom-trace path `path` is SKIPPED for the target whose port/channel text is `hop` iff … -/\n")
+		sb.WriteString("def " + s.lean + "_skips (path hop : List Char) : Bool :=\n  " + expr + "\n")
+		sb.WriteString("/-- how `hop` is built: format string and arguments -/\n")
+		sb.WriteString("def " + s.lean + "_hop : String × List String := (" + leanStr(format) + ", " + leanList(args) + ")\n")
+		if x.ok {
+			sb.WriteString("def " + s.lean + "_translated : Bool := true\n\n")
+		} else {
+			sb.WriteString("def " + s.lean + "_translated : Bool := false\n\n")
+		}
+		facts[s.fn] = map[string]any{"skips": expr, "format": format, "args": args, "translated": x.ok}
+	}
+	sb.WriteString("end FxVerif.Gen.C04Hop\n")
+	c.write("C04Hop.lean", sb.String())
+	c.facts["C04Hop"] = facts
+}
